@@ -15,6 +15,8 @@ import numpy as np
 def enc(x):
     if x is None:
         return None
+    if isinstance(x, str):
+        return x
     if isinstance(x, (bool, np.bool_)):
         return bool(x)
     if isinstance(x, (int, np.integer)):
